@@ -109,6 +109,7 @@ def specs(tier):
     add("r0_from_slopes", [A], A + ".r0_from_slopes", lambda: ([img((1, 1, 3), "s"), var("lam"), var("d")], {}, [z3.Real("lam") > 0, z3.Real("d") > 0, z(img((1, 1, 3), "s").var(axis=-1)[0, 0].re) > 0]))
     T = "turbulence.temporal_ps"
     add("calc_slope_temporalps", [T], T + ".calc_slope_temporalps", lambda: ([img((2, 4, 2), "s")], {}, []), batch="first")
+    add("get_tps_time_axis", [T], T + ".get_tps_time_axis", lambda: ([var("fr"), 6], {}, [z3.Real("fr") > 0]))
     TU = "turbulence.turb"
     add("phase_covariance", [TU], TU + ".phase_covariance", lambda: ([img((2, 2), "r"), var("r0"), var("L0")], {}, pos(img((2, 2), "r")) + [z3.Real("r0") > 0, z3.Real("L0") > 0]))
     AS = "astronomy._astronomy"
